@@ -266,7 +266,19 @@ pub trait BaseVector<T: RealNumber>: Clone + Debug {
             sum += xi * xi;
         }
         mu /= div;
-        sum / div - mu.powi(2)
+        let var = sum / div - mu.powi(2);
+        if var < sum / div * T::from_f64(1e-3).unwrap() {
+            // the two terms nearly cancel (|mean| >> spread) and the one-pass formula has lost its
+            // significant digits: recompute from the centred values
+            let mut centred = T::zero();
+            for i in 0..n {
+                let d = self.get(i) - mu;
+                centred += d * d;
+            }
+            centred / div
+        } else {
+            var
+        }
     }
     /// Computes the standard deviation.
     fn std(&self) -> T {
